@@ -13,7 +13,8 @@ PROPS["C19"] = dict(
           "operations of the 20 listed methods with sizes around 0, 64, 512, 1024, 2048 and MaxInt; each is applied to a "
           "PrintCtx and to a bytes.Buffer in lock-step. Non-trivial: the sequence has a read-type operation after a "
           "write-type one and more than 64 bytes were written (so growth/slide code ran); distinct = distinct (start kind, "
-          "operation-kind sequence)."),
+          "operation-kind sequence)."
+          " Every slice returned by ReadBytes is retained and re-compared after each later step (it must be a copy)."),
     assumptions=["bytes.Buffer of the toolchain that builds the harness is the reference",
                  "panic values are compared by class (too-large / error / other), not by wording",
                  "Cap/Available/AvailableBuffer are not part of the listed interface and are not compared"],
@@ -58,7 +59,8 @@ PROPS["C01"] = dict(
           "a debug history (off / SetDebugMode / side effect of SetLevel(Debug) on another logger), a logger kind (root via interface, root *Entry, "
           "child, grandchild), L and r from built-ins, registered and unregistered numeric levels, and an entry point able to carry r. "
           "Non-trivial: the pair is decided by a clause other than plain built-in ordering, or the entry point is not a plain verb method; "
-          "distinct = (clause, entry point, kind of L, kind of r, decision)."),
+          "distinct = (clause, entry point, kind of L, kind of r, decision)."
+          " The debug mode may also be changed after the logger's level was set, or switched off again before the call."),
     assumptions=["recording writers installed with SetWriter/SetErrorWriter/AddLevelWriter see everything the logger emits",
                  "is.DebugMode() reflects the process-wide debug mode the gate consults"],
     stages=[
@@ -80,7 +82,8 @@ PROPS["C02"] = dict(
           "argument items from: key/value of every kind, Attr, typed constructors, dangling key, non-string in key position, Attrs, []Attr "
           "with nil elements, groups nested to depth 6, empty groups/keys, error values; Println with no or a non-string first argument). "
           "Non-trivial: the list has a malformed/structured element, >=34 args, a Println special form or a blank Print; distinct = "
-          "(format, entry kind, shape set, println mode, admitted, number of selected writers)."),
+          "(format, entry kind, shape set, println mode, admitted, number of selected writers)."
+          " Some configurations are built with AddWriter/AddErrorWriter only (both orders; the standard devices stay in the lists, pointed at /dev/null); the flags are set through SetFlags, Add/RemoveFlags, an open SaveFlagsAndMod scope or after its restore function."),
     assumptions=["the destination set is computed with the C03 routing model (per-level > error-class > normal)"],
     stages=[
         dict(name="delivery", run="^TestDelivery$", quick=30000, thorough=1200000, shards=16, timeout_thorough=3000),
@@ -99,7 +102,8 @@ PROPS["C03"] = dict(
     note="Removing a writer that occurs more than once in a list is not generated (statement silent on duplicates); os.Stdout/os.Stderr themselves are not pool members. In-process, per-logger default lists are observed through swapped os.Stdout/os.Stderr variables; the process-wide default writer only in the child-process stage.",
     rule=("rapid draws 1-3 loggers (roots/children, optionally created with 1-4 writer options) and up to 30 steps of writer operations and "
           "probes, then probes every logger at Info, Error and a drawn severity. Non-trivial: the history contains a remove or reset that "
-          "changed the model state, or a probe answered by per-level writers or at a custom level; distinct = (operation-name sequence, class set)."),
+          "changed the model state, or a probe answered by per-level writers or at a custom level; distinct = (operation-name sequence, class set)."
+          " Six custom levels cover every combination of error device / treated-as / negative value / unregistered; in a fifth of the histories one pool writer fails on every Write (routing must be unaffected)."),
     assumptions=["each record carries a unique probe token, counted in the captured streams",
                  "all loggers are at level Always so that every severity except Off is admitted (gating is C01)"],
     stages=[
@@ -140,7 +144,8 @@ PROPS["C12"] = dict(
     note="'Under a debugger' cannot be reproduced here. Production mode is obtained by running a copy of the test binary under a name not ending in .test (that is how hedzr/is decides). Records are counted with a separator appended by the harness writer.",
     rule=("quick: rapid draws cells (3/4 of them with severity Panic or Fatal) for child processes and in-process scenarios with messages of any "
           "byte class. Non-trivial: the cell terminates, or exactly one conjunct of the termination condition is false; distinct = (entry point, "
-          "severity, logger level, both flags, format, process mode)."),
+          "severity, logger level, both flags, format, process mode)."
+          " The termination flags are set through SetFlags, Add/RemoveFlags, an open SaveFlagsAndMod scope or after its restore function; child scenarios include unregistered negative and huge severities."),
     assumptions=["the child observes the record through an unbuffered os.File write before the process ends"],
     stages=[
         dict(name="child", run="^TestChildSampled$", quick=700, thorough=8000, shards=16, timeout_thorough=3000),
@@ -161,7 +166,8 @@ PROPS["C04"] = dict(
     rule=("rapid draws the configuration, a message (ascii, arbitrary bytes, hostile constants, multi-line, >1024 bytes, blank) and an attribute "
           "tree (keys: identifiers, arbitrary bytes, hostile constants; values: 22 scalar kinds, 17 typed slice kinds, 7 fallback kinds; groups at "
           "any position, possibly empty). Non-trivial: a hostile byte class in message/key/value (quote, backslash, CR/LF, control, ESC, invalid "
-          "UTF-8, U+2028), or a group, or a non-string kind; distinct = the set of classes and kinds present."),
+          "UTF-8, U+2028), or a group, or a non-string kind; distinct = the set of classes and kinds present."
+          " The logger is put into its format in four ways (Set...Mode, option of New, option of New on a child of a parent in another format, With...Mode method); flags are set through all public ways."),
     assumptions=["encoding/json (with UseNumber, plus a UTF-8 validity check and a duplicate-name check) is the JSON judge"],
     stages=[
         dict(name="records", run="^TestJSONRecords$", quick=40000, thorough=1600000, shards=16, timeout_thorough=3000),
@@ -179,7 +185,8 @@ PROPS["C05"] = dict(
            "kind incl. errors) and under go test (the multi-line error dump after the line is exempt)."),
     note="Keys: non-empty, valid UTF-8, no space/'='/quote/control/'.'; reserved names excluded at every level; runs of blanks between pairs are accepted (statement: space-separated); nil may be printed as the bare placeholder <nil>.",
     rule=("as C04 with keys from the legal-logfmt class. Non-trivial: a group followed by at least one sibling in key order, or a hostile byte class "
-          "in message/value, or a non-string kind, or a group; distinct = the set of classes and kinds present."),
+          "in message/value, or a non-string kind, or a group; distinct = the set of classes and kinds present."
+          " The logger is put into its format in four ways (Set...Mode, option of New, option of New on a child of a parent in another format, With...Mode method); flags are set through all public ways."),
     assumptions=["strconv.Unquote is the inverse of the quoting the statement asks for", "production mode = harness binary run under a name not ending in .test"],
     stages=[
         dict(name="production", run="^TestLogfmtRecords$", mode="prod", quick=30000, thorough=800000, shards=16, timeout_thorough=3000),
@@ -198,7 +205,8 @@ PROPS["C07"] = dict(
     note="Values are unique small ints/strings so that the winning occurrence is identifiable; relies on the C04/C05 decoders for plain ints and strings only; colored records are stripped of SGR sequences and the attribute region is tokenised.",
     rule=("rapid draws the scenario; about half of the call lists have >= 13 entries (stability threshold of the sort). Non-trivial: at least two "
           "sources contribute the same key, or >= 13 attributes with a duplicate, or a parent contributes while the logging logger has no own "
-          "attributes; distinct = (format, flag, context mode, class set, chain depth, number of source attributes)."),
+          "attributes; distinct = (format, flag, context mode, class set, chain depth, number of source attributes)."
+          " A quarter of the scenarios give one shared Attrs value (spare capacity) to every logger through SetAttrs1; half emit a second record after attributes were added to a drawn logger of the chain, with another call list."),
     assumptions=["merge order stated in the property: context < ancestors (outermost first) < own < call"],
     stages=[dict(name="assembly", run="^TestAssembly$", quick=25000, thorough=1000000, shards=16, timeout_thorough=3000)],
 )
@@ -215,7 +223,9 @@ PROPS["C06"] = dict(
     note="Layout class: messages without '<', '>', '&' and control characters other than LF; values of kinds whose colored rendering tokenises unambiguously (no fallback kinds). Padding is exact for ASCII first lines, a lower bound (byte width) for non-ASCII ones. Tabs inside the go-test error dump are tolerated. The caller tail is only checked for its shape (C14 owns its content). One open known finding (translator-injected control bytes).",
     rule=("rapid draws the scenario: 2/3 layout class, 1/3 hygiene class (any message without ESC incl. markup, every value kind). Non-trivial: a "
           "multi-line message, or a level without colour entry, or a value with control bytes, or widths different from the defaults; distinct = "
-          "(class set, severity, tag width, minimal width bucket, number of rest lines)."),
+          "(class set, severity, tag width, minimal width bucket, number of rest lines)."
+          " The logger is put into its format in four ways (Set...Mode, option of New, option of New on a child of a parent in another format, With...Mode method); flags are set through all public ways."
+          " Level colours may be changed with SetLevelColors; a record at the level value may be emitted before the custom levels are registered."),
     assumptions=["ESC[0m / ESC[m reset the terminal state, every other ESC[...m sequence switches something on",
                  "built-in level tags are the table documented in slog/level.go (copied into the harness)"],
     stages=[
@@ -235,7 +245,8 @@ PROPS["C09"] = dict(
            "byte-identical. Exploration of sampled (history, probe) pairs."),
     note="sync.Pool reuse cannot be forced or observed from outside; the last history call runs on the probe's goroutine so that the probe normally picks up the context that call returned to the pool. GC may drop pooled objects (covered statistically).",
     rule=("rapid draws the probe and two histories. Non-trivial: a history contains a record longer than the probe, or of another format, or a "
-          "colored record of another severity; distinct = (format, severity, named, caller, class set, lengths of both histories)."),
+          "colored record of another severity; distinct = (format, severity, named, caller, class set, lengths of both histories)."
+          " Attribute keys include the reserved field names (time often holding a time.Time); the caller file may lie under two path mappings; the probe destination may be re-entrant (logs through another logger inside Write, for emissions 2 and 4). Second test: two levels registered identically must print identically whether or not one was logged while unregistered."),
     assumptions=["attributes are rebuilt from the same description for every emission (the encoder sorts argument slices in place)"],
     stages=[dict(name="history", run="^TestHistoryIndependence$", quick=8000, thorough=400000, shards=16, timeout_thorough=3000),
             dict(name="registration", run="^TestRegistrationHistory$", quick=2000, thorough=100000, shards=8, timeout_thorough=3000)],
@@ -251,7 +262,8 @@ PROPS["C11"] = dict(
            "basic calls on a parent/child pair is enumerated."),
     note="The shape classification is: starts with '{' and decodes as one JSON object = JSON; contains an SGR sequence = colored; otherwise must tokenise as logfmt starting with time=.",
     rule=("generated: 1-30 steps (set 50%, with/new 20%, probe 30%), boolean lists of length 0-3, then a probe of every logger. Non-trivial: some "
-          "logger visited >= 2 states and >= 2 loggers exist; distinct = the history text. Enumerated: all index vectors; non-trivial: >= 2 states visited."),
+          "logger visited >= 2 states and >= 2 loggers exist; distinct = the history text. Enumerated: all index vectors; non-trivial: >= 2 states visited."
+          " Probes rotate over seven severities incl. a level registered without colours and unregistered ones."),
     assumptions=[],
     stages=[
         dict(name="enumerated", run="^TestEnumeratedHistories$", quick=1, thorough=1, timeout_thorough=3000),
@@ -270,7 +282,8 @@ PROPS["C16"] = dict(
            "layout's precision where the layout has date, time and a numeric offset."),
     note="Parse-back is skipped for layouts with zone abbreviations (MST), for years outside 0..9999 and for zones whose offset has seconds (historical local mean time) - all limitations of package time's layouts, not of the logger.",
     rule=("rapid draws the scenario. Non-trivial: a non-UTC zone, or a custom layout, or sub-microsecond digits; distinct = (format, path, flags, "
-          "local-time flag, UTC mode, layout, zone kind, millennium)."),
+          "local-time flag, UTC mode, layout, zone kind, millennium)."
+          " Flags are set through SetFlags, Reset+Add/Remove, inside a SaveFlagsAndMod scope or after its restore function (a record is emitted under the other flag set first); special instants (time.Time{}, Unix epoch, year 9999) are mixed in."),
     assumptions=["time/tzdata embedded in the harness binary provides the named zones"],
     stages=[dict(name="timestamps", run="^TestTimestamps$", quick=40000, thorough=1600000, shards=16, timeout_thorough=3000)],
 )
@@ -307,7 +320,8 @@ PROPS["C18"] = dict(
            "three formats from a harness call site, under mappings over ancestors of the harness's source directory, must satisfy the same predicate."),
     note="Not asserted (labelled only): textual look-alike prefixes (/rootkit vs /root) and paths in which a prefix re-occurs inside; when a regexp mapping or the /Volumes rule can interfere only the prefix rule and no-panic are asserted; removal of the home/cwd mapping is only exercised in the caller-field test (cwd). Mappings onto their own prefix are not generated.",
     rule=("rapid draws 0-6 table operations, the two flags and 1-4 paths. Non-trivial: >= 2 applicable mappings, or an absolute replacement, or a "
-          "remove before the query; distinct = (table history, flags, paths)."),
+          "remove before the query; distinct = (table history, flags, paths)."
+          " A quarter of the mappings are registered with a trailing separator; flags are set through all public ways."),
     assumptions=["HOME and the working directory of the harness process are the home/cwd the package captured at init"],
     stages=[
         dict(name="safety", run="^TestSafety$", quick=15000, thorough=600000, shards=16, timeout_thorough=3000),
@@ -328,7 +342,8 @@ PROPS["C14"] = dict(
            "repeats it in a binary built without inlining."),
     note="Expected file is slog.Safety(file) (C18 owns the path policy); colored mode prints the function without its package path. log.Logger.Output called directly, goroutine entry points, deferred calls and cgo callers are not built.",
     rule=("matrix enumeration plus rapid sampling (privacy flags toggled). Non-trivial: skip >= 1, or an entry point that is not a method of the "
-          "logger (package-level, adapter, bridge); distinct = the cell."),
+          "logger (package-level, adapter, bridge); distinct = the cell."
+          " Also: log/slog Loggers derived with With/WithGroup, an earlier SetSkip before the final one, a sibling WithSkip child created afterwards, flags set through all public ways."),
     assumptions=["runtime.Callers / CallersFrames give the true logical frames (also for inlined functions)"],
     stages=[
         dict(name="matrix", run="^TestMatrix$", quick=1, thorough=1),
@@ -353,7 +368,8 @@ PROPS["C15"] = dict(
     note="Attribute keys are non-empty and unique per nesting level (log/slog's own rules for empty keys/inline groups are not modelled); colored format is only checked for 'one record on the right writer'; n/err of the bridge writer are not observable through log.Logger.",
     rule=("rapid draws the scenario. Non-trivial (handler): a derivation chain of length >= 1, a group / LogValuer / Any attribute, or a "
           "non-standard level; distinct = (format, logger level, slog level, chain length, class set, path, emitted). Bridge: every case is "
-          "keyed by (level, severity, admitted, call, newline count)."),
+          "keyed by (level, severity, admitted, call, newline count)."
+          " Every intermediate handler also gets decoy siblings derived after the real one; 1-3 records go through the same handler; the logger's level may change after the bridge was built."),
     assumptions=["log/slog of the building toolchain constructs the records"],
     stages=[
         dict(name="levels", run="^TestLogLevelMapping$", quick=1, thorough=1),
@@ -376,7 +392,8 @@ PROPS["C10"] = dict(
            "return the receiver. 20k (quick) / 200k (thorough) consecutive With* calls must give as many distinct children."),
     note="Each case installs a fresh default logger (the process-wide one keeps children of earlier cases and has no public reset). Every logger gets private recording writers right after creation (child loggers do not inherit writers). The wall clock seeding the anonymous names cannot be owned by the harness: covered by the stress test. The production-binary stage checks the Warn default level.",
     rule=("rapid draws the history. Non-trivial: >= 3 loggers and (a With* and a Set* occurred, or New was called with the name of an existing "
-          "child); distinct = the history text."),
+          "child); distinct = the history text."
+          " Child names may repeat names used elsewhere in the forest; attrs1 settings may hand the same Attrs value to several loggers."),
     assumptions=["gating oracle = C01 rule incl. the debug-mode side effect of SetLevel(Debug)", "record decoding = C04/C05 decoders, merge = C07 reference"],
     stages=[
         dict(name="testing", run="^TestHierarchy$", quick=4000, thorough=150000, shards=16, timeout_thorough=3000),
@@ -397,7 +414,8 @@ PROPS["C08"] = dict(
            "stresses G=64 with larger N, also without the race detector."),
     note="WEAKEST claim of the set: interleavings are sampled by the Go scheduler, not enumerated or controlled; the race detector only reports races on executed paths. Concurrent reconfiguration while logging is outside the claim and never generated. A race report cannot be shrunk by rapid (it is attributed to the whole test); the replay re-runs the stage with the same seed.",
     rule=("Non-trivial: >= 2 goroutines share a logger and a group value or logger attributes or a parent/child pair are involved; distinct = "
-          "(formats present, sharing shape, G bucket, number of loggers, GOMAXPROCS, multi-line)."),
+          "(formats present, sharing shape, G bucket, number of loggers, GOMAXPROCS, multi-line)."
+          " Workloads may contain blank Print/Println calls (counted), loggers with context keys (every call carries its own context values) and unregistered numeric levels (one per goroutine); the Group value shared by the callers must be unmodified afterwards."),
     assumptions=["the recording writers are mutex-protected and copy the payload before returning"],
     stages=[
         dict(name="race", run="^TestConcurrentWorkloads$", race=True, crash_is_violation=True, quick=400, thorough=16000, shards=8, timeout_quick=900, timeout_thorough=3000),
